@@ -16,7 +16,7 @@ Definition mtype_eqb (a b : mtype_t) : bool :=
 
 (* transports/udp6.py:104 UDP6EndpointAddress: peer = sockaddr, local = pktinfo
    (0: none, 1: a unicast local address, 2: a multicast local address).
-   Equality and hashing ignore the local part (udp6.py:149-153), so every table below is keyed by [rpeer]. *)
+   Equality and hashing ignore the local part (udp6.py:146-153), so every table below is keyed by [rpeer]. *)
 Record remote := { rpeer : Z; rlocal : Z }.
 Definition is_multicast (r : remote) : bool := 100 <=? rpeer r.           (* udp6.py:246; peers >= 100 are ff0x:: *)
 Definition is_multicast_locally (r : remote) : bool := rlocal r =? 2.     (* udp6.py:250 *)
@@ -169,7 +169,7 @@ Definition send_message_tail (s1 : st) (r1 : remote) (build : mtype_t -> Z -> wi
   else let '(s3, o) := _send_initially s2 r1 m mon in (s3, o, None).
 
 (* messagemanager.py:423 send_message.  [req_mtype]: type of message.request (None when there is none).
-   Result: new state, outputs, exception raised to the caller (ConToMulticast, TypeError). *)
+   Result: new state, outputs, exception raised to the caller (ConToMulticast). *)
 Definition send_message (s : st) (r : remote) (a : amsg) (mon : monitor) (req_mtype : option mtype_t)
   : st * list output * option exn :=
   if is_response (a_code a) then                                           (* :443-470 No-Response mask and piggy-backing *)
@@ -177,10 +177,8 @@ Definition send_message (s : st) (r : remote) (a : amsg) (mon : monitor) (req_mt
     | Some (pmid, handle) =>
         let s1 := cancel_a (set_piggy s (adel pk_eqb (piggy s) (rpeer r, a_token a))) handle in
         if no_response_of a then
-          (* :455 message.remote.as_response_address() on an address that already is a response address without pktinfo:
-             udp6.py:250 is_multicast_locally -> :207 _in6_pktinfo.unpack_from(None) raises TypeError, after the opportunity was popped *)
-          if rlocal r =? 0 then (s1, [], Some TypeError)
-          else send_message_tail s1 (as_response_address r) (fun _ md => empty_msg ACK md) (Some ACK) (Some pmid) mon None   (* :454 *)
+          (* :454 empty ACK instead; message.remote.as_response_address() is idempotent (udp6.py:254, pktinfo None -> self) *)
+          send_message_tail s1 (as_response_address r) (fun _ md => empty_msg ACK md) (Some ACK) (Some pmid) mon None
         else send_message_tail s1 r (mk_wire a) (Some ACK) (Some pmid) mon req_mtype                                       (* :461 *)
     | None => if no_response_of a then (s, [], None)                                                                       (* :464 *)
               else send_message_tail s r (mk_wire a) (a_mtype a) None mon req_mtype
@@ -202,14 +200,10 @@ Definition run_monitor (s : st) (mon : monitor) : st * list output :=
 Definition METHOD_NOT_ALLOWED := 133.  Definition NOT_FOUND := 132.  Definition INTERNAL_SERVER_ERROR := 160.
 (* tokenmanager.py:128 on_event -> send_message(m, stop), for the (only, final) response of a handler *)
 Definition send_response (s : st) (r : remote) (req : wire) (c : Z) (rnr : option Z) (pl : list Z) : st * list output :=
-  let a := {| a_mtype := None; a_code := c; a_token := token req; a_nr := rnr; a_obs := None; a_payload := pl |} in
-  match send_message s (as_response_address r) a MonResp (Some (mtype req)) with
-  | (s1, o, None) => (s1, o)
-  | (s1, o, Some _) =>
-      (* pipe.py:220 wrapped() -> add_exception -> error_to_message (pipe.py:283): 5.00 without No-Response, sent like any response *)
-      let a' := {| a_mtype := None; a_code := INTERNAL_SERVER_ERROR; a_token := token req; a_nr := None; a_obs := None; a_payload := [] |} in
-      let '(s2, o', _) := send_message s1 (as_response_address r) a' MonResp (Some (mtype req)) in (s2, o ++ o')
-  end.
+  (* tokenmanager.py:139-143: a response without No-Response option (4.04 / 4.05 / 5.00 built from exceptions) inherits the request's *)
+  let eff := match rnr with Some v => Some v | None => nr req end in
+  let a := {| a_mtype := None; a_code := c; a_token := token req; a_nr := eff; a_obs := None; a_payload := pl |} in
+  let '(s1, o, _) := send_message s (as_response_address r) a MonResp (Some (mtype req)) in (s1, o).   (* mtype None: never ConToMulticast *)
 
 Definition unallowed_payload : list Z := [69; 114; 114; 111].     (* "Error: Method not allowed!"[:4] — the harness compares 4 bytes *)
 (* resource.py:131-139 default response codes *)
@@ -225,7 +219,7 @@ Definition tm_process_request (s : st) (r : remote) (m : wire) : st * list outpu
   let known_method := (1 <=? code m) && (code m <=? 7) in
   let exists_ := (path m =? 0) || (path m =? 1) || (path m =? 3) in
   let '(s2, o2) :=
-    if negb exists_ then send_response s1 r m NOT_FOUND None []                       (* error.NotFound via error_to_message: no No-Response *)
+    if negb exists_ then send_response s1 r m NOT_FOUND None []                       (* error.NotFound via error_to_message *)
     else if negb known_method then send_response s1 r m METHOD_NOT_ALLOWED None unallowed_payload
     else if path m =? 0 then                                                          (* slow: waits for the harness *)
       (set_next_srv (set_incoming s1 (aset ik_eqb (incoming s1) key {| sv_id := next_srv s1; sv_remote := r; sv_req := m |})) (next_srv s1 + 1),
@@ -265,9 +259,7 @@ Fixpoint cancel_all (l : list ((list Z * Z) * srv)) (p : Z) : list output :=
   match l with [] => []
   | ((_, rm), sv) :: r => if rm =? p then CancelHandler (sv_id sv) :: cancel_all r p else cancel_all r p end.
 Definition tm_dispatch_error (s : st) (p : Z) (e : exn) : st * list output :=
-  (* tokenmanager.py:99 `request_remote == remote` with request_remote None (a pending multicast request): None == addr falls back to
-     udp6.py:150 UDP6EndpointAddress.__eq__(addr, None) -> AttributeError before any stopper has run (finding) *)
-  if existsb (fun kv => match snd (fst kv) with None => true | Some _ => false end) (outgoing s) then (s, [LoopException AttributeError]) else
+  (* tokenmanager.py:99: the key of a pending multicast request has remote None, which equals no address (udp6.py:150 NotImplemented) *)
   let o := fail_all (outgoing s) p e ++ cancel_all (incoming s) p in
   (set_incoming (set_outgoing s (filter (fun kv => negb (oz_eqb (snd (fst kv)) (Some p))) (outgoing s)))
                 (filter (fun kv => negb (snd (fst kv) =? p)) (incoming s)), o).
